@@ -12,7 +12,7 @@ import (
 )
 
 func init() {
-	Explanations["C11"] = "Decides structural necessary conditions of 'a Byzantine peer cannot corrupt or crash an honest syncer' in package syncer: (R1) the pre-validated entry ChainManager.AddValidatedV2Blocks is called only on the true edge of the require-height predicate that the fetching worker also branches on; in that worker every state appended to the response was produced by consensus.ApplyBlock directly after consensus.ValidateBlock succeeded for the same block and state variable, the starting state is the result of SendCheckpoint advanced over the checkpoint block, and every exit reachable from a failed validation returns a response without blocks; (R2) SendCheckpoint can return a nil error only through the passing sides of the three checkpoint checks (v2 block with one payout, id equals the requested id, commitment equals State.Commitment(...)), SendHeaders only after every header passed ValidateHeader against the running state, and below the require height blocks are kept only after the per-block id comparison with the validated headers; (R3) in the header/outline relay handlers relaying and AddBlocks lie behind the work test and the attach test; (R4) the two RPC dispatch functions (syncer and rhp server) register a recover before dispatching; (R5) each of the seven provable-misbehaviour edges reaches the ban function, which itself cannot return success without reporting the peer to the peer store. (R6) every positional access X[c] / X[len(X)-k] of a slice in package syncer (one obligation per list and function) is reached only through the adequate side of a test of len(X), so a short or empty list from a peer cannot make an index go out of range in code that runs without a recover. (R7) the structural part of 'does not stall' that static pairing can decide: every per-peer slot and every per-subnet slot taken for an inbound RPC is given back on every path, including the paths that reject the RPC (same checks as C18.R1/R2) — a leaked slot makes the peer loop block forever on its own semaphore, so the node stops reading from an honest peer. NOT decided: liveness (still syncs, no stall), goroutines without recover (sync workers), soundness of core's validation."
+	Explanations["C11"] = "Decides structural necessary conditions of 'a Byzantine peer cannot corrupt or crash an honest syncer' in package syncer: (R1) the pre-validated entry ChainManager.AddValidatedV2Blocks is called only on the true edge of the require-height predicate that the fetching worker also branches on; in that worker every state appended to the response was produced by consensus.ApplyBlock directly after consensus.ValidateBlock succeeded for the same block and state variable, the starting state is the result of SendCheckpoint advanced over the checkpoint block, and every exit reachable from a failed validation returns a response without blocks; (R2) SendCheckpoint can return a nil error only through the passing sides of the three checkpoint checks (v2 block with one payout, id equals the requested id, commitment equals State.Commitment(...)), SendHeaders only after every header passed ValidateHeader against the running state, and below the require height blocks are kept only after the per-block id comparison with the validated headers; (R3) in the header/outline relay handlers relaying and AddBlocks lie behind the work test and the attach test; (R4) the two RPC dispatch functions (syncer and rhp server) register a recover before dispatching; (R5) each of the seven provable-misbehaviour edges reaches the ban function, which itself cannot return success without reporting the peer to the peer store. (R6) every positional access X[c] / X[len(X)-k] of a slice in package syncer (one obligation per list and function) is reached only through the adequate side of a test of len(X), so a short or empty list from a peer cannot make an index go out of range in code that runs without a recover. (R7) the structural part of 'does not stall' that static pairing can decide: every per-peer slot and every per-subnet slot taken for an inbound RPC is given back on every path, including the paths that reject the RPC (same checks as C18.R1/R2) — a leaked slot makes the peer loop block forever on its own semaphore, so the node stops reading from an honest peer. (R8) the rollback check of C01.R3 (a failed gated reorg is followed by a reorg back to the tip saved before it). NOT decided: liveness (still syncs, no stall), goroutines without recover (sync workers), soundness of core's validation."
 
 	register(&Rule{ID: "C11.R1", Prop: "C11", Floor: 4, Doc: "the pre-validated entry is fenced: same predicate in worker and finisher, states only after ValidateBlock, checkpoint-derived start", Run: c11r1})
 	register(&Rule{ID: "C11.R2", Prop: "C11", Floor: 5, Doc: "checkpoint, header and block-id checks guard every success exit of the fetch helpers", Run: c11r2})
